@@ -152,7 +152,10 @@ def run_one(m, tier="quick"):
             pp = p if os.path.isabs(p) else os.path.join(P, p)
             r = subprocess.run(["git", "apply", "--unsafe-paths", "--directory", d, pp], cwd="/", capture_output=True, text=True)
             if r.returncode != 0:
-                return name, "skipped", "patch does not apply: " + r.stderr[-200:], {}
+                # the tree moved on since the patch was recorded (later fix: commits): retry with context fuzz
+                r2 = subprocess.run("patch -p1 --fuzz=3 --no-backup-if-mismatch -d %s < %s" % (d, pp), shell=True, capture_output=True, text=True)
+                if r2.returncode != 0:
+                    return name, "skipped", "patch does not apply: " + r.stderr[-200:], {}
         for f, old, new in subs:
             fp = os.path.join(d, f)
             s = open(fp).read()
